@@ -2,4 +2,251 @@ import PyxisVerif.Spec.C16
 /-! helper lemmas for C16 -/
 namespace PyxisVerif.C16
 open Gen
+
+theorem cast_ne_ok {α β} (r : Res α) (b : β) : (r.cast : Res β) ≠ .ok b := by
+  cases r <;> simp [Res.cast]
+
+/-! ## the tables -/
+
+theorem fromStr_eq_lookup (s : String) : CC.fromStr s = documented.lookup s := by
+  unfold CC.fromStr documented
+  simp only [List.lookup]
+  repeat' split
+  all_goals simp_all
+
+theorem fromStr_asStr' (c : CC) : CC.fromStr (CC.asStr c) = some c := by
+  cases c <;> decide
+
+theorem asStr_inj (a b : CC) (h : a.asStr = b.asStr) : a = b := by
+  have ha := fromStr_asStr' a
+  rw [h, fromStr_asStr' b] at ha
+  exact (Option.some.inj ha).symm
+
+/-! ## the attribute loop of `function::build` -/
+
+/-- `declaredCC` with an explicit initial accumulator -/
+def ccStep (acc : Option String) (a : G.Attr) : Option String :=
+  match a with | .fn "calling_convention" [.str s] => some s | _ => acc
+
+def declaredFrom (acc : Option String) (attrs : List G.Attr) : Option String :=
+  attrs.foldl ccStep acc
+
+theorem declaredCC_eq (attrs : List G.Attr) : declaredCC attrs = declaredFrom none attrs := rfl
+
+/-- loop invariant: the convention in the loop state is `fromStr` of the last declared string,
+    and that string is one of the known names -/
+def Inv (st : FnAttrSt) (acc : Option String) : Prop :=
+  match acc with
+  | none => st.cc = none
+  | some s => ∃ c, st.cc = some c ∧ CC.fromStr s = some c
+
+theorem fnAttrStep_inv (isVfunc : Bool) (st st' : FnAttrSt) (a : G.Attr) (acc : Option String)
+    (hinv : Inv st acc) (h : fnAttrStep isVfunc st a = .ok st') :
+    Inv st' (ccStep acc a) := by
+  unfold fnAttrStep at h
+  split at h
+  · rename_i addr
+    split at h
+    · cases h
+    · cases htu : tryUsize addr with
+      | none => simp only [htu] at h; cases h
+      | some v =>
+        simp only [htu] at h
+        cases h
+        exact hinv
+  · split at h
+    · cases h
+    · cases h; exact hinv
+  · rename_i s
+    cases hc : CC.fromStr s with
+    | none => simp only [hc] at h; cases h
+    | some c =>
+      simp only [hc] at h
+      cases h
+      exact ⟨c, rfl, hc⟩
+  · cases h
+    rename_i h1 h2 h3
+    unfold ccStep
+    split
+    · exact absurd rfl (h3 _)
+    · exact hinv
+
+theorem foldl_inv (isVfunc : Bool) (attrs : List G.Attr) (st st' : FnAttrSt) (acc : Option String)
+    (hinv : Inv st acc) (h : Res.foldlM (fnAttrStep isVfunc) st attrs = .ok st') :
+    Inv st' (declaredFrom acc attrs) := by
+  induction attrs generalizing st acc with
+  | nil =>
+    simp only [Res.foldlM] at h
+    cases h
+    exact hinv
+  | cons a as ih =>
+    simp only [Res.foldlM] at h
+    split at h
+    · rename_i st1 h1
+      exact ih st1 _ (fnAttrStep_inv isVfunc st st1 a acc hinv h1) h
+    all_goals cases h
+
+/-! ## receivers -/
+
+def isRecv (a : G.Arg) : Bool := match a with | .named .. => false | _ => true
+
+theorem hasReceiver_eq (f : G.Func) : hasReceiver f = f.args.any isRecv := rfl
+
+theorem buildArg_isSelf (reg : Registry) (scope : List Path) (a : G.Arg) (b : SArg)
+    (h : buildArg reg scope a = .ok b) :
+    b.isSelf = isRecv a := by
+  cases a with
+  | constSelf => cases h; rfl
+  | mutSelf => cases h; rfl
+  | named n t =>
+    simp only [buildArg] at h
+    split at h <;> cases h
+    rfl
+
+theorem mapM_any_isSelf (reg : Registry) (scope : List Path) (as : List G.Arg) (bs : List SArg)
+    (h : Res.mapM' (buildArg reg scope) as = .ok bs) :
+    bs.any SArg.isSelf = as.any isRecv := by
+  induction as generalizing bs with
+  | nil => simp only [Res.mapM'] at h; cases h; rfl
+  | cons a as ih =>
+    simp only [Res.mapM'] at h
+    split at h
+    · rename_i b hb
+      split at h
+      · rename_i bs' hbs
+        cases h
+        simp only [List.any_cons, ih bs' hbs, buildArg_isSelf reg scope a b hb]
+      all_goals cases h
+    all_goals cases h
+
+/-! ## `function::build` -/
+
+theorem specCC_of_inv (f : G.Func) (st : FnAttrSt) (args : List SArg)
+    (hinv : Inv st (declaredFrom none f.attrs)) (hany : args.any SArg.isSelf = f.args.any isRecv) :
+    specCC f = some (match st.cc with
+      | some c => c
+      | none => if args.any SArg.isSelf then ccDefaultSelf else ccDefaultNoSelf) := by
+  unfold specCC
+  rw [declaredCC_eq, hasReceiver_eq]
+  generalize declaredFrom none f.attrs = acc at hinv
+  cases acc with
+  | none =>
+    have hinv : st.cc = none := hinv
+    simp only [hinv, hany, ccDefaultSelf, ccDefaultNoSelf]
+  | some s =>
+    obtain ⟨c, hc, hs⟩ := hinv
+    simp only [hc, ← fromStr_eq_lookup, hs]
+
+theorem buildFunction_cc (reg : Registry) (scope : List Path) (isVfunc : Bool) (f : G.Func) (sf : SFunc)
+    (h : buildFunction reg scope isVfunc f = .ok sf) : specCC f = some sf.cc := by
+  unfold buildFunction at h
+  split at h
+  · cases h
+  · split at h
+    · rename_i st hst
+      have hinv := foldl_inv isVfunc f.attrs ⟨_, none⟩ st none rfl hst
+      split at h
+      · cases h
+      · split at h
+        · rename_i args hargs
+          have hany := mapM_any_isSelf reg scope f.args args hargs
+          have key := specCC_of_inv f st args hinv hany
+          split at h
+          · cases h
+            exact key
+          · split at h
+            · cases h
+              exact key
+            all_goals cases h
+        · exact absurd h (cast_ne_ok _ _)
+    · exact absurd h (cast_ne_ok _ _)
+
+/-! ## vftables -/
+
+theorem zip_any_ne_false {α} [DecidableEq α] (xs ys : List α)
+    (h : (xs.zip ys).any (fun p => p.1 != p.2) = false) (i : Nat) (hi : i < xs.length) (hj : i < ys.length) :
+    ys[i] = xs[i] := by
+  induction xs generalizing ys i with
+  | nil => cases hi
+  | cons x xs ih =>
+    cases ys with
+    | nil => cases hj
+    | cons y ys =>
+      simp only [List.zip_cons_cons, List.any_cons, Bool.or_eq_false_iff, bne_eq_false_iff_eq] at h
+      cases i with
+      | zero => exact h.1.symm
+      | succ i => exact ih ys h.2 i (by simpa using hi) (by simpa using hj)
+
+theorem vft_tail (fns : List SFunc) (bv v : Vft) (ptr : Option Region) (bn : Option String) (ty : DTy)
+    (h : (if fns.length < bv.fns.length then Res.err "vftable is missing functions from base class"
+            else if (bv.fns.zip fns).any (fun p => p.1 != p.2) then
+              .err "vftable has a function that differs from the base class"
+            else .ok (some { fns, baseField := bn, ty := ty }, none) : Res (Option Vft × Option Region))
+          = .ok (some v, ptr)) :
+    ∀ i (hi : i < bv.fns.length), ∃ (hj : i < v.fns.length), v.fns[i] = bv.fns[i] := by
+  split at h
+  · cases h
+  · split at h
+    · cases h
+    · rename_i hlen hany
+      simp only [Res.ok.injEq, Prod.mk.injEq, Option.some.injEq] at h
+      obtain ⟨rfl, _⟩ := h
+      intro i hi
+      have hj : i < fns.length := by omega
+      exact ⟨hj, zip_any_ne_false bv.fns fns (by simpa using hany) i hi hj⟩
+
+theorem buildVftable_inherited (s s1 : State) (owner : Path) (vis : Vis) (fb : Option Region) (fns : List SFunc)
+    (v : Vft) (ptr : Option Region) (bn : String) (bv : Vft)
+    (h : buildVftable s owner vis fb (some fns) = (s1, .ok (some v, ptr)))
+    (hb : baseVftable s1.reg fb = .ok (some (bn, bv))) :
+    ∀ i (hi : i < bv.fns.length), ∃ (hj : i < v.fns.length), v.fns[i] = bv.fns[i] := by
+  unfold buildVftable at h
+  simp only at h
+  split at h
+  · cases h
+  · rename_i item _
+    have key : ∀ (h : (match s.addItem item with
+        | Res.ok s1 =>
+          (s1,
+            match baseVftable s1.reg fb with
+            | Res.ok (some (baseName, bv)) =>
+              if fns.length < bv.fns.length then Res.err "vftable is missing functions from base class"
+              else
+                if ((bv.fns.zip fns).any fun p => p.fst != p.snd) = true then
+                  Res.err "vftable has a function that differs from the base class"
+                else Res.ok (some { fns := fns, baseField := some baseName, ty := (DTy.raw item.path).cptr }, none)
+            | Res.ok none =>
+              Res.ok
+                (some { fns := fns, baseField := none, ty := (DTy.raw item.path).cptr },
+                  some
+                    { vis := G.Vis.priv, name := some vftableFieldName, doc := none,
+                      ty := RTy.data (DTy.raw item.path).cptr, isBase := false })
+            | e => e.cast)
+        | e => (s, e.cast)) = (s1, Res.ok (some v, ptr))),
+        ∀ i (hi : i < bv.fns.length), ∃ (hj : i < v.fns.length), v.fns[i] = bv.fns[i] := by
+      clear h
+      intro h'
+      split at h'
+      · simp only [Prod.mk.injEq] at h'
+        obtain ⟨rfl, h'⟩ := h'
+        rw [hb] at h'
+        exact vft_tail fns bv v ptr _ _ h'
+      · simp only [Prod.mk.injEq] at h'
+        exact absurd h'.2 (cast_ne_ok _ _)
+    split at h
+    · split at h
+      · cases h
+      · exact key h
+    · split at h
+      · cases h
+      · exact key h
+
+/-! ## printers -/
+
+theorem rtyStr_fn (cc : CC) (args : List (String × DTy)) (ret : Option DTy) :
+    ∃ rest, Emit.rtyStr (.fn cc args ret) = "unsafe extern \"" ++ cc.asStr ++ "\" fn(" ++ rest := by
+  unfold Emit.rtyStr
+  simp only []
+  exact ⟨_ ++ (_ ++ _), String.append_assoc.trans String.append_assoc⟩
+
 end PyxisVerif.C16
